@@ -15,6 +15,12 @@ CLAIMS = {
  "C04": dict(level=MC, design="5-C04",
    text="The tower is specified as three instances of a generic quotient ring K[t]/(t^D - C) (ExtField.tla: polynomial product + reduction, no Karatsuba), Frobenius as x^(q^k) via generator images (checked against plain exponentiation by TLC), cyclotomic membership and the easy-part map as relations. TLC enumerates component-shape families x operations x alias patterns x all Frobenius powers 0..13 x sparse shapes; the cases are replayed on the rebuilt library (asm, portable 64/32) and TLC validates every recorded call, plus random calls, against the definitions.",
    note="Trusted: TLC, BigNat/Tower Java accelerators (each checked against its TLA+ definition by MC_BigNat/MC_Tower). No exhaustive toy-field instance of the coded formulas yet; coverage at 381 bits is by shape classes and random events."),
+ "C05": dict(level=MC, design="5-C05",
+   text="Curve.tla states the affine chord-and-tangent group law on y^2=x^3+b over an abstract field, instantiated for E(Fq) and E'(Fq2). TLC enumerates scenario tuples (relation class x Jacobian representative of each operand x API x alias) with witnesses built by that law, including identity operands in arbitrary (x,y,0) form, equal and opposite operands, different representatives of the same point and points outside the subgroup; the cases are replayed through the C++ and C APIs on asm and portable builds and TLC accepts each recorded output in any representative iff it denotes the group-law result.",
+   note="Trusted: TLC, accelerators checked by MC_BigNat/MC_Tower, generator coordinates ASSUME-checked (on curve, order r). Exhaustive model checking of the coded Jacobian formulas on toy curves is not built yet; coverage is by relation/representation classes and random sums."),
+ "C06": dict(level=MC, design="5-C06",
+   text="The signed-digit recoding is specified as a TLA+ state machine with a fixed-width accumulator (ScalarRecode.tla) and model-checked for all scalars of widths up to 10 bits (recombination, digit bounds, buffer length; the as-shipped variant without carry is rejected by the same invariants). At full size TLC enumerates boundary scalar families x routine x width x base, the cases are replayed through every scalar-multiplication routine (C++ and C API) and TLC validates each result against double-and-add on the affine law, and each digit string / base-|x| decomposition against exact recombination.",
+   note="Trusted as for C05. GLV and base-|x| decompositions are validated through results and recombination at full size; toy-parameter exhaustive instances (GlvMC/PowXMC) are not built yet."),
 }
 checks = []
 for p in props:
